@@ -1259,6 +1259,15 @@ def corr_empty_dicts(chk, n):
         chk.case("serialize_case.params", key=enc_container(c), nontrivial=any(v == {} for v in c.values()), sample={"query": c, "impl": impl})
         if typed(impl) != typed(m):
             chk.disagreement("serialize_case.params", c, m, impl)
+        # replay: the pass that keeps empty objects visible to `requests` must leave every other entry as generated
+        if isinstance(impl, list):
+            got = {k: v for k, v in impl}
+            for k, v in c.items():
+                if isinstance(v, (str, int, bool)) and (k not in got or typed(got[k]) != typed(enc_val(v))):
+                    chk.violation("C06:serialize_case:query-value-changed-next-to-an-empty-object",
+                                  f"query {c!r}: the entry {k}={v!r} is handed to requests as {got.get(k, '<missing>')!r}",
+                                  {"mechanism": "empty_dicts", "query": c, "params": impl})
+                    break
 
 
 # ---- the three transports deliver the same request ----------------------------------------------------------------------
